@@ -73,6 +73,9 @@ func (g *Gen) genFunc(fs *FuncSpec) {
 	for _, n := range []string{"QK.Int.0", "QK.Int.1", "QK.Ref.0"} {
 		g.s.declNamed(n, "Int")
 	}
+	g.addInstTerm("Int", "QK.Int.0")
+	g.addInstTerm("Int", "QK.Int.1")
+	g.addInstTerm("Ref", "QK.Ref.0")
 	vars := map[string]CV{}
 	var args []T
 	for k, p := range fn.Params {
